@@ -134,10 +134,10 @@ FINDINGS = [
     dict(
         id="KF-C04-inlined-result-register-lifetime",
         property="C04",
-        also=["C01", "C02", "C06"],
+        also=["C01", "C02", "C06", "C13"],
         trigger="value_function_with_single_call_site_inside_function",
         what="a value function with one call site inside another function is inlined there; its result register lives in the main scope with a lifetime taken from source lines (definition .. call site), so a main-scope value that is live while the enclosing function runs (e.g. a loop counter) is given the same register and overwritten",
-        signatures=dict(C04=[dict(monitor="shadow-tags", event="clobber")], C01=[dict(ANYTRACE, **NOEV)], C06=[dict(ANYTRACE, **NOEV)], C02=[dict(DIFF, machine_event_a=None, machine_event_b=None)]),
+        signatures=dict(C04=[dict(monitor="shadow-tags", event="clobber")], C01=[dict(ANYTRACE, **NOEV)], C06=[dict(ANYTRACE, **NOEV)], C02=[dict(DIFF, machine_event_a=None, machine_event_b=None)], C13=[dict(monitor="module-differential", machine_event_a=None, machine_event_b=None), dict(ANYTRACE, **NOEV)]),
         witness=dict(C01=prog(S_INL_RESULT, [V_DEF])),
     ),
     dict(
@@ -232,6 +232,29 @@ FINDINGS.append(
         what="'push ra' saves return addresses in the chip's own stack from cell 0 upwards and arguments/results use the top cells: a program that reads stack[0..] itself (examples/loops.py sums stack[0..9]) sees the saved return address, and only when the enclosing function is not inlined",
         signatures=dict(C02=[dict(DIFF, machine_event_a=None, machine_event_b=None)]),
         witness=dict(C02=prog("def inner():\n    db.Mode = 1\ndef outer():\n    inner()\n    inner()\n    db.Setting = stack[0]\nwhile True:\n    yield_()\n    outer()\n", [V_DEF, V_NOINL])),
+    )
+)
+
+FINDINGS.append(
+    dict(
+        id="KF-C04-lifetime-widened-to-innermost-loop-only",
+        property="C04",
+        also=["C01", "C02", "C06"],
+        trigger="local_bound_outside_nested_loops_read_in_inner_loop",
+        what="a function-local value (e.g. a parameter) that is read inside the inner of two nested loops gets a lifetime up to the end of the inner loop only; a temporary allocated later in the outer loop's body takes its register, and the next iteration of the outer loop reads the overwritten value (widening to the outermost loop would change the pinned hash_number result)",
+        signatures=dict(C04=[dict(monitor="shadow-tags", event="clobber", across_scopes=False)], C01=[dict(ANYTRACE, **NOEV)], C06=[dict(ANYTRACE, **NOEV)], C02=[dict(DIFF, machine_event_a=None, machine_event_b=None)]),
+        witness=dict(C04=prog("def f(a, b):\n    w = 0\n    while w < 2:\n        w += 1\n        v = 0\n        while v < 2:\n            v += 1\n            if b > 1.5:\n                db.Mode = b\n        if (1.5 + d2.Pressure) == a:\n            db.Setting = w\nwhile True:\n    yield_()\n    f(d1.Pressure, d1.Charge + 0.5)\n    f(1, 2)\n", [V_NOINL])),
+    )
+)
+FINDINGS.append(
+    dict(
+        id="KF-C04-captured-reference-id-register",
+        property="C04",
+        also=["C01"],
+        trigger="stack_object_from_register_ref_id",
+        what="Stack(ref_id=<value held in a register>) captures the register inside the stack object; uses of the object are not uses of the variable for the lifetime analysis, so 'getd r1 r1 63' overwrites the id that the following 'putd r1 ..' needs - pinned by constexpr_eval.ref",
+        signatures=dict(C04=[dict(monitor="shadow-tags", event="clobber")], C01=[dict(ANYTRACE)]),
+        witness=dict(C04=prog("def build():\n    pid = ElectronicsPrinters.Minimum.ReferenceId\n    ps = Stack(ref_id=pid)\n    ps[ps[63] + 1] = 7\nwhile True:\n    yield_()\n    if d2.Setting:\n        build()\n", [V_DEF])),
     )
 )
 
